@@ -8,6 +8,7 @@ CONSTANTS
   LitPool <- LitEscaped
   Schemes <- SchemesAll
   MaxSchemes = 2
+  MaxHistory = 2
   MaxBaseQ = 2
   MaxPatQ = 1
 INVARIANTS PathHolds OrderIndependent QueryHolds SchemeHolds RawQueryRoundTrip
